@@ -22,6 +22,12 @@ STDLIB_AXIOMS = {
 }
 
 
+# Coq's primitive machine integers / binary64 floats and the standard library's axiomatic specification of them
+# (Coq.Floats.FloatAxioms, Coq.Numbers.Cyclic.Int63.Uint63): kernel primitives and stdlib axioms, used by the
+# floating-point model of the interpolation kernel (Model/TrilinearFloat.v); named in DESIGN.md sections 7 and 15
+STDLIB_PRIMITIVE_MODULES = {"PrimFloat", "PrimInt63", "FloatAxioms", "Uint63", "FloatOps"}
+
+
 class CoqError(Exception):
     pass
 
@@ -149,7 +155,7 @@ def prove(prop_file: str, timeout: int = 600) -> dict:
         elif cur is not None and line and not line.startswith(" ") and not line.startswith("\t"):
             cur.append(line.split(":")[0].strip())
     axioms = sorted({a for b in blocks for a in b})
-    foreign = [a for a in axioms if a not in STDLIB_AXIOMS]
+    foreign = [a for a in axioms if a not in STDLIB_AXIOMS and a.split(".")[0] not in STDLIB_PRIMITIVE_MODULES]
     missing_print = [t for t in theorems if t not in prints]
     return {
         "ok": ok and not foreign and not missing_print and len(blocks) == len(prints),
